@@ -31,7 +31,9 @@ def tol : Rat := Generated.eqTolerance
 def normalOrderedH (j : Json) : Except String Json := do
   let k ← parseKind (← J.field j "kind")
   let a ← J.op (← J.field j "a")
-  .ok (J.ofOp (normalOrdered tol k a))
+  -- `r`: as coded (EQ_TOLERANCE); `r0`: tolerance 0 (no deletion), the version the soundness
+  -- theorems are about — the harness checks that both agree up to exact zeros (exact regime)
+  .ok (J.obj [("r", J.ofOp (normalOrdered tol k a)), ("r0", J.ofOp (normalOrdered 0 k a))])
 
 def noTermH (j : Json) : Except String Json := do
   let k ← parseKind (← J.field j "kind")
